@@ -131,6 +131,8 @@ class ClassInfo(object):
         self.bases = []          # resolved ClassInfo (repo classes only)
         self.class_consts = {}
         for item in node.body:
+            if isinstance(item, ast.Assign) and len(item.targets) == 1 and isinstance(item.targets[0], ast.Name):
+                self.class_consts[item.targets[0].id] = item.value
             if isinstance(item, ast.FunctionDef):
                 self.methods[item.name] = item
                 for dec in item.decorator_list:
@@ -151,6 +153,19 @@ class ClassInfo(object):
                 if c not in out:
                     out.append(c)
         return out
+
+    def class_const(self, model, name):
+        """the folded value of a class-level constant ``name`` as an instance of this class sees it (first definition along the
+        MRO), provided no method of the package ever assigns that attribute on an object; raises NotConst otherwise"""
+        for c in self.mro():
+            if name in c.class_consts:
+                for k in model.classes.values():
+                    for fn in k.methods.values():
+                        for n in ast.walk(fn):
+                            if isinstance(n, ast.Attribute) and n.attr == name and isinstance(n.ctx, (ast.Store, ast.Del)):
+                                raise NotConst("attribute %s is assigned on instances" % name)
+                return model.fold(c.class_consts[name], c.module)
+        raise NotConst("no class-level constant %s" % name)
 
     def is_subclass_of(self, other):
         return other in self.mro()
@@ -375,6 +390,64 @@ class Model(object):
                 if r and r[0] == "class":
                     c.bases.append(r[1])
         self._summ = None
+        for c in self.classes.values():
+            self._expand_property_factories(c)
+
+    def _expand_property_factories(self, c):
+        """``name = factory(<args>)`` in a class body, where ``factory`` (a function of the same module) consists of simple
+        assignments, one nested ``def getter(self)`` and ``return property(getter, ...)``: the property it builds is analysed as
+        the method  def name(self): <parameters bound to the arguments>; <the factory's assignments>; <getter body>  -- the
+        closure written out (its variables are never rebound)"""
+        import copy
+        for name, value in list(c.class_consts.items()):
+            if not (isinstance(value, ast.Call) and isinstance(value.func, ast.Name) and value.func.id in c.module.functions):
+                continue
+            fac = c.module.functions[value.func.id]
+            body = [st for st in fac.body if not (isinstance(st, ast.Expr) and isinstance(st.value, ast.Constant))]
+            if not body or not isinstance(body[-1], ast.Return) or not isinstance(body[-1].value, ast.Call):
+                continue
+            ret = body[-1].value
+            if not (isinstance(ret.func, ast.Name) and ret.func.id == "property"):
+                continue
+            getter = ret.args[0] if ret.args else next((k.value for k in ret.keywords if k.arg == "fget"), None)
+            if not isinstance(getter, ast.Name):
+                continue
+            if len(ret.args) > 1 or any(k.arg in ("fset", "fdel") for k in ret.keywords):
+                continue
+            inner = [st for st in body[:-1] if isinstance(st, ast.FunctionDef) and st.name == getter.id]
+            rest = [st for st in body[:-1] if not (isinstance(st, ast.FunctionDef) and st.name == getter.id)]
+            if len(inner) != 1 or not all(isinstance(st, ast.Assign) and len(st.targets) == 1 and isinstance(st.targets[0], ast.Name)
+                                          for st in rest):
+                continue
+            a = fac.args
+            if a.vararg or a.kwarg or a.kwonlyargs or a.posonlyargs or any(isinstance(x, ast.Starred) for x in value.args) \
+                    or any(k.arg is None for k in value.keywords):
+                continue
+            params = [x.arg for x in a.args]
+            bound = {}
+            for p_, x in zip(params, value.args):
+                bound[p_] = x
+            for k in value.keywords:
+                bound[k.arg] = k.value
+            for p_, d in zip(params[len(params) - len(a.defaults):], a.defaults):
+                bound.setdefault(p_, d)
+            if set(params) - set(bound) or len(value.args) > len(params):
+                continue
+            rebound = set(n.id for st in inner[0].body for n in ast.walk(st) if isinstance(n, ast.Name) and isinstance(n.ctx, ast.Store))
+            if rebound & (set(params) | set(st.targets[0].id for st in rest)):
+                continue
+            pre = [ast.Assign(targets=[ast.Name(id=p_, ctx=ast.Store())], value=copy.deepcopy(bound[p_])) for p_ in params]
+            fn = ast.FunctionDef(name=name, args=copy.deepcopy(inner[0].args), decorator_list=[], returns=None, type_comment=None,
+                                 body=pre + [copy.deepcopy(st) for st in rest] + [copy.deepcopy(st) for st in inner[0].body])
+            if hasattr(fn, "type_params"):
+                fn.type_params = []
+            for n in ast.walk(fn):
+                if not hasattr(n, "lineno") or n in pre:
+                    ast.copy_location(n, value)
+            ast.copy_location(fn, value)
+            ast.fix_missing_locations(fn)
+            c.methods[name] = fn
+            c.properties.add(name)
 
     # -- lookups ---------------------------------------------------------------------------------
     def module(self, name):
